@@ -1594,3 +1594,52 @@ Section StableUnique.
     - intros k. rewrite F. symmetry. now apply sort_by_stable.
   Qed.
 End StableUnique.
+
+(* ================================================================== the writers' own encodings *)
+
+(* field norms: a document that lacks the field (no byte in the buffer: it was added after the last holder) gets
+   norm 0, every other document the byte recorded for it -- at its new doc id *)
+Lemma serialize_fieldnorms_spec n n2o f new :
+  is_perm n n2o -> (length f <= n)%nat -> (new < n)%nat ->
+  nth new (serialize_fieldnorms (Some (from_new_id_to_old_id n2o)) n f) 0 = nth (nth new n2o 0%nat) f 0.
+Proof.
+  intros P L H. unfold serialize_fieldnorms. rewrite (remap_nth n n2o P) by exact H.
+  unfold fill_up_to_max_doc. set (old := nth new n2o 0%nat).
+  destruct (Nat.lt_ge_cases old (length f)) as [Hlt|Hge].
+  - now rewrite app_nth1.
+  - rewrite app_nth2 by exact Hge. rewrite nth_repeat. now rewrite (nth_overflow f) by exact Hge.
+Qed.
+
+Lemma serialize_fieldnorms_length n n2o f : is_perm n n2o -> length (serialize_fieldnorms (Some (from_new_id_to_old_id n2o)) n f) = n.
+Proof. intros P. unfold serialize_fieldnorms. apply (remap_length n n2o P). Qed.
+
+(* term-frequency recorder: decoding the deltas gives back the old doc ids ... *)
+Lemma delta_roundtrip prev docs :
+  strictly_increasing_b docs = true -> Forall (fun d => (prev <= d)%nat) docs ->
+  delta_decode prev (delta_encode prev docs) = docs.
+Proof.
+  revert prev; induction docs as [|d r IH]; intros prev Hinc Hge; [reflexivity|].
+  cbn [delta_encode delta_decode]. inversion Hge as [|? ? Hd _]; subst.
+  replace (prev + (d - prev))%nat with d by lia. f_equal.
+  destruct (strictly_increasing_cons _ _ Hinc) as [Hinc' Hgt].
+  apply IH; [exact Hinc'|]. eapply Forall_impl; [|exact Hgt]. cbn. intros; lia.
+Qed.
+
+(* ... so serializing the recorder under a mapping is the remap of the posting list *)
+Lemma serialize_tf_recorder_spec {P} m (pl : plist P) :
+  strictly_increasing_b (map fst pl) = true ->
+  serialize_tf_recorder m (delta_encode 0 (map fst pl)) (map snd pl) = remap_plist m pl.
+Proof.
+  intros Hinc. unfold serialize_tf_recorder, remap_plist.
+  rewrite delta_roundtrip; [|exact Hinc|apply Forall_forall; intros; lia].
+  f_equal. clear Hinc. induction pl as [|[d p] r IH]; [reflexivity|]. cbn [map combine fst snd]. now rewrite IH.
+Qed.
+
+(* the seeded confusion (the previous NEW id used as base of the next delta) is a different function *)
+Fixpoint delta_decode_remapping (g : nat -> nat) (prev : nat) (deltas : list nat) : list nat :=
+  match deltas with [] => [] | x :: r => g (prev + x)%nat :: delta_decode_remapping g (g (prev + x)%nat) r end.
+Lemma remapped_base_differs :
+  let m := from_new_id_to_old_id [3; 0; 1; 2]%nat in
+  map (get_new_doc_id m) (delta_decode 0 (delta_encode 0 [0; 1]%nat)) = [1; 2]%nat /\
+  delta_decode_remapping (get_new_doc_id m) 0 (delta_encode 0 [0; 1]%nat) = [1; 3]%nat.
+Proof. vm_compute. split; reflexivity. Qed.
